@@ -491,7 +491,7 @@ func callSSA(i *interpreter, caller *frame, callpos token.Pos, fn *ssa.Function,
 			}
 		}
 		if ext := externals[name]; ext != nil {
-			if r := ext(fr, args); r != (useSSA{}) {
+			if r := callExternal(ext, fr, args); r != (useSSA{}) {
 				return r
 			}
 		}
@@ -760,4 +760,31 @@ func Interpret(mainpkg *ssa.Package, mode Mode, sizes types.Sizes, filename stri
 		exitCode = 1
 	}
 	return
+}
+
+
+// callExternal runs a library model.  A Go panic raised by the natively executed library code
+// (e.g. strings.Repeat: negative Repeat count) is a panic of the program under test.
+func callExternal(ext externalFn, fr *frame, args []value) (res value) {
+	defer func() {
+		if r := recover(); r != nil {
+			switch p := r.(type) {
+			case inconclusive, pathEnd, targetPanic, exitPanic, killSignal, deadlock:
+				panic(r)
+			case error:
+				if strings.Contains(p.Error(), "interp.") || strings.Contains(p.Error(), "interface conversion") {
+					panic(r) // a fault of the model itself
+				}
+				panic(targetPanic{iface{t: types.Typ[types.String], v: p.Error()}})
+			case string:
+				if strings.HasPrefix(p, "runtime error") {
+					panic(r)
+				}
+				panic(r)
+			default:
+				panic(r)
+			}
+		}
+	}()
+	return ext(fr, args)
 }
